@@ -4,7 +4,7 @@
    write_rpu_data mirrors read_rpu_data), the NAL-level escaping theorems, and the executable
    model evaluated on the two witnesses that used to break the property. *)
 From Coq Require Import List NArith ZArith Bool String.
-From DV Require Import Outcome Bits Escape BitIO Fields Blocks Rpu Tables FieldsProofs.
+From DV Require Import Outcome Bits Escape BitIO Fields Blocks Rpu Tables FieldsProofs HeaderRT MappingRT RpuRT.
 From DVgen Require Import Consts_gen Blocks_gen DmData_gen Switches_gen.
 Import ListNotations.
 Open Scope N_scope.
@@ -50,6 +50,61 @@ Example C01_witness_roundtrips :
   end.
 Proof. vm_compute. reflexivity. Qed.
 
+(* ------------------------------------------------------------------------------------------
+   THE RPU ROUND TRIP.  For EVERY byte string that the parser accepts (header, mapping with any
+   number of pivots and polynomial / MMR pieces, NLQ, DM payload with both containers and every
+   extension block level, alignment, data before the CRC, CRC, terminator, trailing zero bytes):
+   if the unmodified write returns at all, it returns exactly the input bytes.  Proved by
+   composing a read-then-write lemma for every syntax element (the writer's own validation
+   failures need no hypothesis: they are the "or fails with an error" half of the property).
+   Side conditions, each a reason the statement would be false without it:
+     - mapping_small: signed coefficients below 2^52 in magnitude - the third-party signed
+       exp-Golomb reader goes through f64 and rounds larger codes;
+     - mapping_consistent: no curve mixing polynomial and MMR pieces (the writer rejects those
+       since the repair; the hypothesis keeps the theorem independent of that switch);
+     - the parse is that of a Debug build, which panics on the one non-canonical exp-Golomb code
+       (129 bits; third-party known finding) that a Release build reads as a shorter value.
+   ------------------------------------------------------------------------------------------ *)
+Theorem C01_rpu_roundtrip : forall sw data x,
+  parse_inner Debug sw data = Ok x -> forallb is_byte data = true -> rpu_side_conditions x ->
+  forall p out, write_rpu_data p sw x = Ok out -> out = data.
+Proof. exact rpu_roundtrip. Qed.
+
+(* the parts, each in the stronger form "the writer returns, and appends exactly the bits read" *)
+Theorem C01_header_roundtrip : forall r h r',
+  parse_header Debug r = Ok (h, r') ->
+  exists bs, consumed r r' bs /\ forall p w, write_header p h w = Ok (wput w bs).
+Proof. exact header_roundtrip. Qed.
+
+Theorem C01_mapping_roundtrip : forall sw h r m r',
+  parse_mapping Debug sw h r = Ok (m, r') ->
+  el_bit_depth_minus8 h < 256 -> mapping_consistent m -> mapping_small m ->
+  exists bs, consumed r r' bs /\ forall p w, write_mapping p sw h m w = Ok (wput w bs).
+Proof. exact mapping_roundtrip. Qed.
+
+Theorem C01_dm_roundtrip : forall h r d r',
+  parse_dm Debug h r = Ok (d, r') ->
+  exists bs, consumed r r' bs /\ forall p, wspec r bs (write_dm p d).
+Proof. exact dm_rt. Qed.
+
+(* exp-Golomb read then written (unsigned: every canonical code; signed: |v| < 2^52) *)
+Theorem C01_ue_read_write : forall r v r', get_ue Debug r = Ok (v, r') ->
+  exists bs, consumed r r' bs /\ forall p w, write_ue p v w = Ok (wput w bs).
+Proof. exact get_ue_rt. Qed.
+
+Theorem C01_se_read_write : forall r v r', get_se Debug r = Ok (v, r') ->
+  (Z.abs v < Z.of_N two52)%Z ->
+  exists bs, consumed r r' bs /\ forall p w, write_se p v w = Ok (wput w bs).
+Proof. exact get_se_rt. Qed.
+
+(* the witness found while proving the header round trip (el_bit_depth_minus8 coded with bits
+   above bit 15 and a colliding CRC): silently re-encoded before the repair, a parse error now *)
+Definition c01_el_witness : list N :=
+  [25;8;9;8;64;97;48;0;0;0;0;0;15;244;166;168;176;0;25;65;96;148;63;83;127;128].
+Example C01_el_witness_rejected : parse_rpu Debug src_sw c01_el_witness = Err.
+Proof. vm_compute. reflexivity. Qed.
+
 Print Assumptions C01_fields_roundtrip.
+Print Assumptions C01_rpu_roundtrip.
 Print Assumptions C01_ue_roundtrip.
 Print Assumptions C01_block_tables_symmetric.
